@@ -44,7 +44,10 @@ RULE = ("every set of 1-3 distinct strict orders over 3 alternatives (dynamic pr
         "the mirrored model of Model/ILPEnc.v, on every profile of 1-2 weak orders over m <= 2 (thorough: m <= 3) "
         "alternatives and random soc/toc profiles m <= 5, n <= 4; non-trivial = m >= 3 and a non-empty constraint list. "
         "Every k_alternative_deletion call (m <= 12) is also compared with the mirrored dynamic programme c12.elp: "
-        "same number of removed alternatives (identical certificates are counted in the distribution)")
+        "same number of removed alternatives (identical certificates are counted in the distribution). Volume for the "
+        "dynamic programme (no ILP, no brute force): 3000 (thorough 12000) strict profiles with 7-10 alternatives "
+        "(ids from 0, sparse, large), 2-6 votes, impartial culture / perturbed single-peaked: certificate + size = "
+        "mirror; plus 300 (1500) profiles with 7 alternatives against the verified reference min_alt_del")
 EXHAUSTIVE = {"quick": "k_alternative_deletion on every set of 1-3 distinct strict orders over 3 alternatives; ILP "
                        "encodings (3 functions) on every profile of 1-2 distinct weak orders over m <= 2 alternatives and "
                        "every single weak order over 3",
@@ -204,6 +207,42 @@ def make_profile(rng, alts, n, weak, family):
     return distinct_semantic(prof), [], []
 
 
+def perturbed_sp(rng, alts, n):
+    """n strict votes single-peaked on a random axis, then a few random perturbations (adjacent swaps, one alternative
+    moved somewhere else)"""
+    axis = rand_perm(rng, alts)
+    votes = []
+    for _ in range(n):
+        v = [c[0] for c in planted_strict(rng, axis)]
+        for _ in range(rng.choice([0, 0, 1, 1, 2, 3])):
+            if rng.random() < 0.5 and len(v) >= 2:
+                i = rng.randrange(len(v) - 1)
+                v[i], v[i + 1] = v[i + 1], v[i]
+            else:
+                a = v.pop(rng.randrange(len(v)))
+                v.insert(rng.randint(0, len(v)), a)
+        votes.append([[a] for a in v])
+    return distinct_semantic(votes)
+
+
+def impartial_culture(rng, alts, n):
+    return distinct_semantic([[[a] for a in rand_perm(rng, alts)] for _ in range(n)])
+
+
+def rand_ids(rng, m):
+    """alternative identifiers: contiguous from 0, contiguous from 1, sparse, large; listed in arbitrary order"""
+    k = rng.randrange(4)
+    if k == 0:
+        ids = list(range(0, m))
+    elif k == 1:
+        ids = list(range(1, m + 1))
+    elif k == 2:
+        ids = rng.sample(range(0, 40), m)
+    else:
+        ids = rng.sample(range(0, 10 ** 6), m)
+    return rand_perm(rng, ids)
+
+
 def mk(alts, profile, flags, mode, core=(), pv=(), pa=(), **tags):
     dt = 0 if is_strict(profile) else 2
     if dt != 0:
@@ -298,6 +337,22 @@ def generate(tier, seed):
         fam = ["vot-planted", "alt-planted", "alt-planted"][i % 3]
         prof, pv, pa = make_profile(rng, alts, rng.randint(3, 8), False, fam)
         out.append(mk(alts, prof, F_DP, 0, core=pick_core(rng, alts, prof, 5), pv=pv, pa=pa, family=fam, large=1))
+    # ---- volume for the dynamic programme (no ILP, no brute-force reference): k_alternative_deletion against the mirrored
+    #      dynamic programme c12.elp (same number of removed alternatives) + certificate, 7 <= m <= 10, 2 <= n <= 6
+    for i in range(3000 if not thorough else 12000):
+        m = rng.choice([7, 7, 8, 8, 9, 10])
+        alts = rand_ids(rng, m)
+        n = rng.randint(2, 6)
+        fam = ["ic", "perturbed-sp"][i % 2]
+        prof = impartial_culture(rng, alts, n) if fam == "ic" else perturbed_sp(rng, alts, n)
+        out.append(mk(alts, prof, F_DP, 0, family="volume-" + fam, volume=1))
+    # ---- reference comparison at m = 7 (strict profiles, dynamic programme only)
+    for i in range(300 if not thorough else 1500):
+        alts = rand_ids(rng, 7)
+        n = rng.randint(2, 6)
+        fam = ["ic", "perturbed-sp"][i % 2]
+        prof = impartial_culture(rng, alts, n) if fam == "ic" else perturbed_sp(rng, alts, n)
+        out.append(mk(alts, prof, F_DP, 1, family="ref7-" + fam))
     # ---- encoding correspondence (no solver call): exhaustive tiny + random m <= 5, n <= 4, soc and toc
     def enc(alts, prof, **tags):
         dt = 0 if is_strict(prof) else 2
@@ -338,13 +393,27 @@ def _objective(x):
     return [int(r), int(abs(q - r) < Fraction(1, 10 ** 6))]
 
 
+def _ilp(fn, *a):
+    """python-mip models are freed by the cyclic GC; if that happens while cffi is inside a later solver call,
+    Model.__del__ re-enters cffi's non-reentrant lock and the process deadlocks (observed by the C15 agent).  Collect
+    before the call, keep the collector off during it.  (environment, not /repo)"""
+    import gc
+    gc.collect()
+    gc.disable()
+    try:
+        return guarded(fn, *a)
+    finally:
+        gc.enable()
+        gc.collect()
+
+
 def _opt_impl(c):
     from preflibtools.properties.subdomains.ordinal.singlepeaked import singlepeakedness as SPM
     from preflibtools.properties.subdomains.ordinal.singlepeaked.k_alternative_deletion import k_alternative_deletion
     dt, alts, profile, flags = c["payload"][:4]
     res = {}
     if flags & F_VOT:
-        r = guarded(SPM.approx_SP_voter_deletion_ILP, _instance(dt, alts, profile))
+        r = _ilp(SPM.approx_SP_voter_deletion_ILP, _instance(dt, alts, profile))
         if r[0] == 0:
             obj, status, axis, deleted = r[1]
             if axis is None or deleted is None or obj is None:
@@ -356,7 +425,7 @@ def _opt_impl(c):
     if flags & F_ALT:
         inst = _instance(dt, alts, profile)
         names = list(inst.alternatives_name)
-        r = guarded(SPM.approx_SP_alternative_deletion_ILP, inst)
+        r = _ilp(SPM.approx_SP_alternative_deletion_ILP, inst)
         if r[0] == 0:
             obj, status, axis, deleted = r[1]
             if axis is None or deleted is None or obj is None:
@@ -580,7 +649,7 @@ def _opt_shrink(c):
         fl = flags if nd == 0 else flags & ~F_DP
         if fl == 0:
             return None
-        small = len(na) <= 6 and len(np_) <= 6
+        small = len(na) <= 7 and len(np_) <= 6
         return dict(c, payload=[nd, na, np_, fl, 1 if small else 0, [] if small else [[a for a in S if a in na] for S in core], [], []])
 
     if len(profile) > 1:
@@ -626,8 +695,11 @@ def _capture(fn, inst):
         def optimize(self, *a, **kw):
             raise _StopBeforeSolve()
 
+    import gc
     old = SPM.Model
     SPM.Model = CapModel
+    gc.collect()
+    gc.disable()                      # see _ilp
     try:
         try:
             fn(inst)
@@ -635,6 +707,7 @@ def _capture(fn, inst):
             pass
     finally:
         SPM.Model = old
+        gc.enable()
     if len(got) != 1:
         raise RuntimeError("expected exactly one mip.Model, got %d" % len(got))
     return got[0]
